@@ -140,7 +140,7 @@ def main(argv=None):
     ctab = ClassTable(repo)
     for c in REG['classes']:
         ctab.add(c)
-    timeout_ms = int(os.environ.get('PYVC_TIMEOUT_MS', '0')) or (90000 if a.tier == 'quick' else 240000)
+    timeout_ms = int(os.environ.get('PYVC_TIMEOUT_MS', '0')) or (120000 if a.tier == 'quick' else 300000)
 
     fn_results = []
     all_obs = []
